@@ -195,6 +195,9 @@ func (g *Gen) plan(bulk bool, req []int, avoid map[int]bool) Plan {
 		p.Out = OutPanic
 		p.Pan = r.Intn(2)
 	}
+	if r.Chance(1, 7) {
+		p.Nest = 1 + r.Intn(2)
+	}
 	if bulk {
 		p.Shape = []int{0, 0, 0, 1, 1, 2, 2, 3, 4}[r.Intn(9)]
 		p.Mask = r.U64()
